@@ -174,6 +174,10 @@ mut("C17-revert-mandatory-sections-in-header", "lib.c",
     "	if (0) {\n		LibSectName n;\n		for( n = LIB_NAME_START; n < LIB_NAME_LIMIT; n += 1 ) {\n			if( n == LIB_Pos || n == LIB_PosTbl ) continue;")
 
 
+mut("C08-revert-java-identifier-table", "java/genjava.c",
+    "CString gjCharIds[UCHAR_MAX + 1];", "CString gjCharIds[CHAR_MAX];")
+
+
 def main():
     out = os.path.join(os.path.dirname(os.path.abspath(__file__)), "mutants")
     os.makedirs(out, exist_ok=True)
